@@ -95,6 +95,15 @@ class Sym:
     def is_const(self, q=None):
         return self.op == "const" and (q is None or self.args[0] == q)
 
+    # the traced code occasionally takes `.real` / `.imag` of a value that is real in the property's domain
+    @property
+    def real(self):
+        return self
+
+    @property
+    def imag(self):
+        return 0.0
+
     # ---- arithmetic (light, real-sound simplification: x+0, x*1, x*0, const folding) ---
     def __add__(self, o):
         if isinstance(o, _np.ndarray):
